@@ -1149,6 +1149,243 @@ def rule_r10(facts, col, rule_id="C09.R10"):
                 col.silent(rule_id, key, body.where(bb), "count not related to any window by construction (%s)" % show(peel(cnt, through_try=False))[:60])
 
 
+WIN_SLICES = ("circular_buffer::BufferWriter::slice", "circular_buffer::BufferReader::slice")
+
+
+def _slice_window_expr(ln):
+    """for the length operand of a bounds check: the window expression W when the indexed slice is `W.slice()`"""
+    p = peel(ln, through_try=False)
+    if p.k in ("un", "ptrmeta") or (p.k == "call" and (p.q or "").split("::")[-1] == "len"):
+        inner = p.a if p.a is not None else (p.args[0] if p.args else None)
+    else:
+        inner = None
+        for x in walk(p):
+            if x.k == "call" and x.q in WIN_SLICES:
+                inner = x
+                break
+    q = peel(inner) if inner is not None else None
+    n = 0
+    while q is not None and n < 6:
+        n += 1
+        if q.k == "call" and q.q in WIN_SLICES and q.args:
+            w = q.args[0]
+            while w is not None and peel(w, through_try=False).k in ("ref", "deref"):
+                w = peel(w, through_try=False).a
+            return peel(w, through_try=False)
+        if q.k in ("ref", "deref"):
+            q = peel(q.a)
+            continue
+        break
+    return None
+
+
+def _len_bound_of(body, e, w, depth=0, at=None):
+    """e is a value <= len(window w) by construction: len(w) itself (window or slice length), a local holding it, or a min(..)
+    one of whose operands is such a value"""
+    p = peel(e, through_try=False)
+    if depth > 4 or p is None:
+        return False
+    if p.k == "call" and (p.q or "").split("::")[-1] == "len" and p.args:
+        a = p.args[0]
+        while a is not None and peel(a, through_try=False).k in ("ref", "deref"):
+            a = peel(a, through_try=False).a
+        a = peel(a, through_try=False)
+        if a is not None and a.k == "call" and a.q in WIN_SLICES and a.args:
+            a = a.args[0]
+            while a is not None and peel(a, through_try=False).k in ("ref", "deref"):
+                a = peel(a, through_try=False).a
+            a = peel(a, through_try=False)
+        return same_expr(a, w)
+    if p.k == "call" and (p.q in MIN_CALLS or p.rq in MIN_CALLS):
+        return any(_len_bound_of(body, a, w, depth + 1, at) for a in p.args)
+    if p.k == "multi" and p.alts:
+        # a bound chosen per case (`match clock { Some(c) => min(o.len(), c.len()), None => o.len() }`): the cases that can be
+        # current where the access happens (the same discriminant is matched again around it)
+        alts = consistent_alts(body, p, at) if at is not None else None
+        alts = alts if alts else p.alts
+        return all(_len_bound_of(body, a, w, depth + 1, at) for a in alts)
+    return False
+
+
+def _root_of(e):
+    """what a window expression hangs on: the acquisition call (read_buf/write_buf) or the local that holds it (an Option of a
+    window), looking through fields, variants, references, slice() and the Option accessors"""
+    p = peel(e, through_try=False) if e is not None else None
+    n = 0
+    while p is not None and n < 16:
+        n += 1
+        if p.k in ("local", "multi"):
+            return p
+        if p.k == "call" and (p.q in READ_BUF or p.q in WRITE_BUF):
+            return p
+        if p.k in ("field", "downcast", "ref", "deref", "cast") and p.a is not None:
+            p = peel(p.a, through_try=False)
+            continue
+        if p.k == "call" and p.args and (p.q or "").split("::")[-1] in ("slice", "iter", "as_mut", "as_ref", "unwrap", "deref", "deref_mut", "as_deref", "as_deref_mut",
+                                                                         "len", "is_empty", "branch", "expect"):
+            p = peel(p.args[0], through_try=False)
+            continue
+        if p.k == "agg" and p.args and p.variant in ("Some", "Ok"):
+            p = peel(p.args[0], through_try=False)
+            continue
+        if p.k == "call":
+            return p          # whatever produced the (optional) window: `self.out_clock.as_mut().map(|x| x.write_buf())`
+        return None
+    return None
+
+
+def _same_root(a, b, depth=0):
+    if a.k in ("local", "multi") and b.k in ("local", "multi"):
+        if a.local == b.local:
+            return True
+    if depth < 2:
+        # a value chosen between alternatives hangs on whatever each alternative hangs on (`match .. { Some(Ok(x)) => Some(x), .. }`)
+        for x, y in ((a, b), (b, a)):
+            if x.k == "multi" and x.alts:
+                for alt in x.alts:
+                    r = _root_of(alt)
+                    if r is not None and r is not x and _same_root(r, y, depth + 1):
+                        return True
+    if a.k in ("local", "multi") or b.k in ("local", "multi"):
+        return False
+    return same_expr(a, b)
+
+
+def rule_r11(facts, col, rule_id="C09.R11"):
+    """a counter used as index into a stream window stays inside it: where work() stores to / reads from `W.slice()[k]` with k a
+    counter (initialised with a constant, advanced by `k += 1`), (a) W is established non-empty where the access happens -
+    so the first access is inside - and (b) after every increment, every path back to the access passes a test `k != L` / `k < L`
+    against a bound L that is the window's own length (or a `min` containing it).  Otherwise the access runs past the window
+    as soon as this window is the short one - a panic that depends only on how much room/data the peer happened to leave."""
+    n = 0
+    for body in facts.impl_bodies(BLOCK_TRAIT, "work"):
+        if body.from_derive:
+            continue
+        for bb in sorted(body.reachable(0)):
+            t = body.term(bb)
+            if t["k"] != "assert" or t["msg"]["kind"] != "BoundsCheck":
+                continue
+            ln, ix = body.operand_expr(t["msg"]["a"]), body.operand_expr(t["msg"]["b"])
+            w = _slice_window_expr(ln)
+            if w is None:
+                continue
+            pi = peel(ix, through_try=False)
+            key = "%s:index#%d" % (body.q, n)
+            n += 1
+            if pi.k != "multi" or not pi.alts:
+                col.silent(rule_id, key, body.where(bb), "index is not a counter (range-drawn / computed): left to C15's index rules")
+                continue
+            ds = body.defs().get(pi.local, [])
+            incs, inits, other = [], [], []
+            for (dbb, si, kind, payload), alt in zip(ds, pi.alts):
+                pa = peel(alt, through_try=False)
+                if pa.k == "const" and isinstance(pa.v, int):
+                    inits.append((dbb, pa.v))
+                elif pa.k == "bin" and pa.op == "Add" and peel(pa.a, through_try=False).k in ("multi", "local") and peel(pa.a, through_try=False).local == pi.local \
+                        and _const_int(pa.b) == 1:
+                    incs.append(dbb)
+                else:
+                    other.append(dbb)
+            if other or len(inits) != 1 or inits[0][1] != 0 or not incs:
+                col.silent(rule_id, key, body.where(bb), "index is not a 0-based +1 counter")
+                continue
+            # (a) the window is non-empty at the access
+            one = E("const", v=1, ty="usize")
+            wkind = "circular_buffer::BufferWriter::len"
+            mine = E("call", q=wkind, args=[E("ref", a=w)])
+            nonempty = False
+            wf = window_of(w)
+            if wf and window_lower_bounds(body, bb, facts).get(wf[0], 0) >= 1:
+                nonempty = True
+            if not nonempty:
+                for f in facts_at(body, bb):
+                    if f[0] in ("Bool", "BoolVal") and f[2] is False and f[1] is not None and (getattr(f[1], "q", None) or "").split("::")[-1] == "is_empty" and f[1].args:
+                        a = f[1].args[0]
+                        while a is not None and peel(a, through_try=False).k in ("ref", "deref"):
+                            a = peel(a, through_try=False).a
+                        if same_expr(peel(a, through_try=False), w):
+                            nonempty = True
+                    if f[0] in ("Ne", "Gt", "IntNe") and len(f) > 2:
+                        xs = [f[1]] + ([f[2]] if hasattr(f[2], "k") else [])
+                        zero_other = (f[0] == "IntNe" and f[2] == 0) or any(_is_zero(x) for x in xs if hasattr(x, "k"))
+                        if zero_other and any(_len_bound_of(body, x, w, 0, bb) for x in xs if hasattr(x, "k") and not _is_zero(x)):
+                            # `L != 0` / `L > 0` with L <= len(W): then len(W) >= 1
+                            nonempty = True
+            # (b) every way back from an increment passes `k != L` / `k < L`
+            good_edges = set()
+            for edge, f in edge_facts(body):
+                if f[0] in ("Ne", "Lt") and hasattr(f[1], "k") and hasattr(f[2], "k"):
+                    a, b = peel(f[1], through_try=False), peel(f[2], through_try=False)
+                    for x, y in ((a, b), (b, a)):
+                        if f[0] == "Lt" and x is not a:
+                            continue
+                        if x.k == "multi" and x.local == pi.local and _len_bound_of(body, y, w, 0, bb):
+                            good_edges.add(edge)
+            defset = {d[0] for d in ds}
+            unguarded = []
+            for dbb in incs:
+                start = dbb
+                r = reachable_without_edges(body, start, good_edges, avoid=defset - {dbb})
+                if bb in r and bb != dbb or (bb == dbb):
+                    unguarded.append(dbb)
+            if nonempty and not unguarded:
+                col.ok(rule_id, key, body.where(bb), "window non-empty at the access; every increment is followed by a test against the window's length")
+                continue
+            # Reported on affirmative evidence only (a refactored spelling of a correct guard must not alarm):
+            # (1) the length of this window is never consulted at all, or (2) the counter IS compared with a bound that contains
+            # this window's length (the author thought of it) but nothing rules out that bound being 0
+            consulted = False
+            rw = _root_of(w)
+            for cbb, ct in body.calls():
+                nm = ct["f"].get("name") or ""
+                for a in ct["args"]:
+                    ra = _root_of(body.operand_expr(a))
+                    if ra is None or rw is None or not _same_root(ra, rw):
+                        continue
+                    if nm in ("len", "is_empty"):
+                        consulted = True
+                    elif nm in ("map_or", "map_or_else", "and_then", "is_some_and", "is_none_or", "filter") or (nm == "map" and cbb != getattr(rw, "bb", None)):
+                        consulted = True      # the Option holding the window handed to a closure (`clock.as_ref().map_or(.., |c| c.len())`)
+            counter_tested = False
+            for edge, f in edge_facts(body):
+                for x in f[1:]:
+                    if hasattr(x, "k") and any(y.k in ("multi", "local") and y.local == pi.local for y in walk(x)):
+                        counter_tested = True
+            # (3) some way back from an increment to the access passes no branch condition that mentions the counter at all
+            tests = {edge[0] for edge, f in edge_facts(body)
+                     if any(hasattr(x, "k") and any(y.k in ("multi", "local") and y.local == pi.local for y in walk(x)) for x in f[1:])}
+            blind = []
+            for dbb in incs:
+                r = body.reachable(dbb, avoid=(tests | (defset - {dbb})) - {dbb})
+                if bb in r and dbb not in tests:
+                    blind.append(dbb)
+            if blind and consulted:
+                col.bad(rule_id, key, body.where(bb),
+                        "after the counter `%s` is advanced (%s) the access can be reached again without passing ANY test that mentions the "
+                        "counter (an inner loop that runs on another condition): nothing keeps it below the window's length there, and the "
+                        "access runs past the window when this window is the short one" % (show(pi)[:20], body.where(blind[0])), {})
+                continue
+            if consulted and nonempty and not counter_tested:
+                col.bad(rule_id, key, body.where(bb),
+                        "the counter `%s` that indexes this window is advanced in the loop but never tested by any branch condition of "
+                        "work(): nothing keeps it below the window's length, so the access runs past the window whenever more steps are "
+                        "taken than it has room for" % show(pi)[:20], {})
+                continue
+            if not consulted:
+                col.bad(rule_id, key, body.where(bb),
+                        "the window indexed here with the counter `%s` is never asked for its length: the counter is bounded by other "
+                        "windows only, so as soon as this one is the shorter the access runs past it and work() panics - only because of "
+                        "how much room / data the peer happened to leave" % show(pi)[:20], {})
+            elif not nonempty and not unguarded:
+                col.bad(rule_id, key, body.where(bb),
+                        "the counter `%s` is kept below a bound that contains this window's length, but nothing rules out that bound being 0 "
+                        "(the window is not established non-empty on this path): with this stream full the very first access is outside "
+                        "the window and work() panics" % show(pi)[:20], {})
+            else:
+                col.silent(rule_id, key, body.where(bb), "window length is consulted; the guard's shape is not one the rule can follow")
+    return n
+
+
 # a body that raises an alarm as compiled is judged again on its work view (effects.view_fallback)
 rule_r2 = effects.view_fallback(rule_r2)
 rule_r3 = effects.view_fallback(rule_r3)
@@ -1157,6 +1394,7 @@ rule_r5 = effects.view_fallback(rule_r5)
 rule_r6 = effects.view_fallback(rule_r6)
 rule_r7 = effects.view_fallback(rule_r7)
 rule_r9 = effects.view_fallback(rule_r9)
+rule_r11 = effects.view_fallback(rule_r11)
 
 def run(ctx):
     facts = ctx.facts("default")
@@ -1174,6 +1412,8 @@ def run(ctx):
     ctx.floor("C09.R7", 40, "WaitForStream verdicts with a constant amount in hand-written work() bodies")
     rule_r9(facts, ctx)
     ctx.floor("C09.R9", 40, "WaitForStream verdicts of hand-written work() bodies (effect-free paths need a look at the awaited stream)")
+    rule_r11(facts, ctx)
+    ctx.floor("C09.R11", 1, "counter-indexed accesses to stream windows proved inside (5 today: RationalResampler, SymbolSync x2, ZeroCrossing x2)")
     rule_r10(facts, ctx)
     ctx.floor("C09.R10", 30, "consume()/produce() sites of hand-written work() bodies whose count is bounded by their own window")
     rule_r5(facts, ctx)
